@@ -114,6 +114,10 @@ def rnd_criteria(rng, refs, params=None):
                                                                                "rparam": ref, "rcal": rng.random() < 0.5}], []]]]
             if tree[0] == "or" and tree[2]:
                 tree[2][0][0] = "and"
+            if tree[2] and rng.random() < 0.5:
+                # a third level (AND under OR under AND, or the other way round), its conditions decisive for some packets
+                tree[2][0][2] = [[tree[0], [{"left": ref, "op": rng.choice(["==", "!="]), "lcal": False, "rvalue": str(rng.choice([0, 1, 2, 3]))},
+                                            {"left": other, "op": rng.choice(["<", ">="]), "lcal": rng.random() < 0.5, "rvalue": str(rng.choice([1, 2]))}], []]]
             ks = [["bool", ["tree", tree]]]
             break
     return ks
